@@ -93,10 +93,11 @@ pub fn run(rep: &mut Rep) {
         holds: true,
         inbound: vec![(1, 1, false, SubSel::Absent)],
         max_inbound: 1,
+        writer_stall: true,
         ..Default::default()
     };
     let depth = if rep.quick() { 6 } else { 9 };
-    rep.note(&format!("exhaustive: every path of <= {depth} actions over {{start pub0/pub1/pub2/ping (<=3 ops), deliver PUBACK/PUBREC/PUBCOMP with reason 0x00 / 0x10 / 0x87, hold/release the QoS 2 future, one inbound QoS 1 PUBLISH}}"));
+    rep.note(&format!("exhaustive: every path of <= {depth} actions over {{start pub0/pub1/pub2/ping (<=3 ops), deliver PUBACK/PUBREC/PUBCOMP with reason 0x00 / 0x10 / 0x87, hold/release the QoS 2 future, stall/release the writer (a publish may not report success before its bytes are accepted), one inbound QoS 1 PUBLISH}}"));
     let seed = rep.seed;
     explore_world(rep, "exh", depth, &move || World::boot(WorldCfg { seed, ..Default::default() }), &a);
     let mut wa = a.clone();
